@@ -6,6 +6,7 @@ namespace RtcModel.Drv.C11
 def handle (stream : String) (args : List String) : String :=
   match stream with
   | "hs" => RtcModel.Drv.DtlsStream.hsSession args
+  | "dl" => RtcModel.Drv.DtlsStream.deadlineCheck args
   | _ => "bad-stream"
 
 end RtcModel.Drv.C11
